@@ -5,8 +5,11 @@ from fractions import Fraction
 from vlib import coqlit as L
 import C08_util as U
 
-POOL = [1, "a", None, 2.5, True, 0, 0.0, -0.0, (1, 2), "b", Fraction(1, 3), False, 1.0, -7, "", ()]
-PADS = [0., 0, -0., False, True, 1, 1., None, "", "P", (), Fraction(1, 2), 2.5, -3]
+O = U.Obj
+POOL = [1, "a", None, 2.5, True, 0, 0.0, -0.0, (1, 2), "b", Fraction(1, 3), False, 1.0, -7, "", (),
+        O("float"), O("nan"), O("alist"), O("lambda"), O("stream"), O("callobj"), O("abs")]
+# pads incl. callables meant as DATA, NaN, containers: given and compared by identity (object table of C08_util)
+PADS = [0., 0, -0., False, True, 1, 1., None, "", "P", (), Fraction(1, 2), 2.5, -3] + [O(n) for n in U.OBJ_NAMES]
 EQ_GROUPS = [[0., 0, -0., False], [1, True, 1.], [None, "", ()], [2, 2.0, Fraction(2)]]
 ENTRIES = ["func", "stream", "scopy", "hub", "hub2"]
 STYLES = ["kw", "pos", "mix", "rkw"]
@@ -195,6 +198,14 @@ def gen_calls(tier, rng):
                    mk_bcall("list", e2, "kw", n2, s2, h, "P", shift=sh2, share=True),
                    mk_zcall("list", "kw", n1, 1, 1, "Z", share=True)]
           yield {"calls": calls, "mode": "seq", "tags": ["samelist"]}
+    # pad values that are callables / NaN / containers meant as DATA, through every entry, then again in zero_pad
+    for i, name in enumerate(U.OBJ_NAMES):
+      for (n, s, h) in [(2, 3, 3), (4, 3, 2), (1, 4, 1)]:
+        e = ENTRIES[(i + n) % len(ENTRIES)]
+        calls = [mk_bcall("list", e, STYLES[(i + n) % 3], n, s, h, O(name)),
+                 mk_zcall("iter", ZSTYLES[(i + n) % 4], n, 1 + i % 2, 2, O(name)),
+                 mk_bcall("iter", "func", "kw", n, s, h, O(name), shift=16)]
+        yield {"calls": calls, "mode": ["seq", "alt"][(i + n) % 2], "tags": ["objpads"]}
     # same arguments twice (a result cached per arguments would be exhausted / shared the second time)
     for (n, s, h) in [(5, 2, 2), (5, 3, 1), (4, 3, 3), (7, 2, 3)]:
       for kind in ("tuple", "range", "list", "subtuple"):
